@@ -181,6 +181,44 @@ def run_case(concepts, case, spec):
                 call(list, g2)
             call(list, g1)
             COL.count('nested_traversals_on_a_fresh_context')
+    # the FIRST traversal a context ever sees is given up early - the consumer's loop breaks, raises, closes
+    # the generator or simply drops it - and only then the complete runs are made (all entry points)
+    if hash(gen.table_key(case)) % 3 == 1 and not big and len(case['objects']) <= 300 and len(case['properties']) <= 300:
+        import gc
+        for k, first in enumerate([alg.iterconcepts, alg.fast_generate_from, alg.fcbo_dual, alg.iterconcepts]):
+            fresh_ctx = common.build_or_skip(concepts, case)
+            if fresh_ctx is None:
+                break
+            g = call(first, fresh_ctx)
+            if g is RAISED:
+                continue
+            how = (k + rng.randrange(4)) % 4
+            try:
+                for _ in range(rng.randint(0 if how else 1, 4)):
+                    next(g, None)
+                if how == 0:
+                    g.close()
+                elif how == 1:
+                    g.throw(KeyError('the consumer gave up'))
+                elif how == 2:
+                    del g
+                    gc.collect()
+                else:
+                    try:
+                        for step, _ in enumerate(g):
+                            if step >= 1:
+                                raise LookupError('raised inside the consumer loop')
+                    finally:
+                        del g
+            except (core.CaseTimeout, core.CaseTooLarge):
+                raise
+            except Exception:
+                pass
+            for fn in rng.sample([alg.get_concepts, alg.iterconcepts, alg.fast_generate_from, alg.fcbo_dual], 3):
+                g2 = call(fn, fresh_ctx)
+                if g2 is not RAISED:
+                    call(list, g2)
+            COL.count('first_traversal_of_a_fresh_context_given_up_early')
     results = {}
     for name, fn in [('fast_generate_from', alg.fast_generate_from),
                      ('fcbo.fast_generate_from', alg.fcbo.fast_generate_from),
